@@ -87,9 +87,10 @@ def main():
                 sh(["git", "-C", "/repo", "checkout", "--", "."])
             else:
                 sh(["git", "-C", "/repo", "worktree", "remove", "--force", tree])
-            # Generated/*.lean were rewritten from the patched tree's source text: put the committed
-            # ones (= unchanged /repo) back; every check regenerates them anyway
-            sh(["git", "-C", VERIF, "checkout", "--", "lean/CtrlVerif/Generated"])
+            # Generated/*.lean were rewritten from the patched tree's source text: regenerate them
+            # from the unchanged /repo (every check regenerates its own anyway)
+            sh(["/venv/bin/python", os.path.join(VERIF, "harness", "regen_all.py")],
+               env={k: v for k, v in os.environ.items() if k != "VERIF_REPO"})
             # evidence files are rewritten by the runs above against a patched tree: the caller
             # re-runs the checks on /repo before committing evidence
     json.dump(results, open(os.path.join(SEEDED, "RESULTS.json"), "w"), indent=1, sort_keys=True)
